@@ -64,6 +64,15 @@ func (ls *lockStrategy) answer(n *node, c *stratCall) stratAnswer {
 		if pick == "" && c.kind == "consider" {
 			return stratAnswer{err: tmconsensus.ErrProposedBlockChoiceNotReady}
 		}
+		if pick == "" {
+			// At the proposal timeout: rather than nil, prevote any proposed block that is known (lowest hash);
+			// which block an unlocked validator prevotes does not matter for safety.
+			for _, ph := range c.phs {
+				if pick == "" || string(ph.Header.Hash) < pick {
+					pick = string(ph.Header.Hash)
+				}
+			}
+		}
 		return stratAnswer{hash: pick}
 	case "decide":
 		maj := majority(c.vs.AvailablePower)
@@ -228,7 +237,8 @@ func (nw *netw) defaultAction() (string, func() string) {
 	for _, d := range nw.queue {
 		if !d.done {
 			d := d
-			return fmt.Sprintf("D:%d>%d", d.msg, d.to), func() string { return nw.deliver(d) }
+			m := nw.msgs[d.msg]
+			return fmt.Sprintf("D:%d>%d(%s %d/%d %s from n%d)", d.msg, d.to, m.kind, m.h, m.r, h8(append([]byte(m.target), m.ph.Header.Hash...)), m.from), func() string { return nw.deliver(d) }
 		}
 	}
 	for i, n := range nw.nodes {
